@@ -108,13 +108,13 @@ static std::string decode_bytes(const std::vector<uint8_t> &d, const std::string
     auto r = dec.DecodeMeshFromBuffer(&b);
     if (!r.ok()) return r.status().code() == Status::UNKNOWN_VERSION ? "err-version" : "err";
     std::unique_ptr<Mesh> m = std::move(r).value();
-    return "ok " + std::to_string(b.decoded_size()) + " " + vh::dump_geometry(m.get(), m.get());
+    return "ok " + std::to_string(static_cast<int64_t>(d.size()) - b.remaining_size()) + " " + vh::dump_geometry(m.get(), m.get());
   }
   if (t.value() == POINT_CLOUD) {
     auto r = dec.DecodePointCloudFromBuffer(&b);
     if (!r.ok()) return r.status().code() == Status::UNKNOWN_VERSION ? "err-version" : "err";
     std::unique_ptr<PointCloud> p = std::move(r).value();
-    return "ok " + std::to_string(b.decoded_size()) + " " + vh::dump_geometry(p.get(), nullptr);
+    return "ok " + std::to_string(static_cast<int64_t>(d.size()) - b.remaining_size()) + " " + vh::dump_geometry(p.get(), nullptr);
   }
   return "err";
 }
@@ -123,7 +123,8 @@ static std::string decode_bytes(const std::vector<uint8_t> &d, const std::string
 VH_OP(dec) { return decode_bytes(vh::unhex(a[2]), a[1]); }
 
 // encdec <enc args…>: encode, then decode the produced bytes followed by optional trailing bytes
-//   (token trail=<hex>): -> ok <hex> <nep> <nef> | <dec result>
+//   (token trail=<hex>), normally and (token skip=<types>) with attribute transforms skipped:
+//   -> ok <hex> <nep> <nef> | <dec result> | <dec result with skip, or ->
 VH_OP(encdec) {
   std::string e = op_enc(a);
   if (e.rfind("ok ", 0) != 0) return e;
@@ -131,7 +132,7 @@ VH_OP(encdec) {
   std::string okt, hx;
   ss >> okt >> hx;
   auto d = vh::unhex(hx);
-  std::string skip = "-";
+  std::string skip = "";
   for (size_t i = 1; i < a.size() && a[i] != "--"; ++i) {
     if (a[i].rfind("trail=", 0) == 0) {
       auto t = vh::unhex(a[i].substr(6));
@@ -139,5 +140,5 @@ VH_OP(encdec) {
     }
     if (a[i].rfind("skip=", 0) == 0) skip = a[i].substr(5);
   }
-  return e + " | " + decode_bytes(d, skip);
+  return e + " | " + decode_bytes(d, "-") + " | " + (skip.empty() ? std::string("-") : decode_bytes(d, skip));
 }
